@@ -4,7 +4,8 @@
 Require Import Grits.Base Grits.STypes Grits.Forms Grits.TcDeps Grits.Tc Grits.TcTop Grits.spec.Typing
                Grits.proofs.TcLemmas Grits.proofs.TypingSound Grits.proofs.TypingSoundTop
                Grits.proofs.TypingComplete Grits.proofs.TypingCompleteTop Grits.proofs.TypingVerdict
-               Grits.spec.SynOk Grits.proofs.TypingBisim Grits.proofs.Acyclic.
+               Grits.spec.SynOk Grits.proofs.TypingBisim Grits.proofs.Acyclic
+               Grits.proofs.ParseSynOk Grits.proofs.ParsedVerdict.
 
 Theorem C07_unfold_spec : forall D t h, unfold D t = Ok (Some h) <-> head D t h.
 Proof. exact unfold_spec. Qed.
@@ -47,11 +48,35 @@ Theorem C07_well_typed_not_rejected_bisim : forall p, prog_syn_ok p = true -> Pr
   typecheck p <> Reject /\ (forall w, typecheck p <> RejectInternal w) /\ (forall w, typecheck p <> Diverge w).
 Proof. exact well_typed_not_rejected_bisim. Qed.
 
+(* ---- the premise holds of every program the parser returns (proofs/ParseSynOk.v: LABEL lexemes are
+   identifier-shaped, the 75 semantic actions and expandProcesses keep every type syn_ok), so for
+   parsed programs the bisimilarity instance is closed: no premise left *)
+Theorem C07_parse_syn_ok : forall s p, Expand.parse_string s = Expand.POk p -> prog_syn_ok p = true.
+Proof. exact parse_syn_ok. Qed.
+
+Theorem C07_verdict_bisim_parsed : forall s p, Expand.parse_string s = Expand.POk p -> (accepts p <-> ProgOK teq_bisim p).
+Proof. exact verdict_bisim_parsed. Qed.
+
+Theorem C07_sound_bisim_parsed : forall s p p', Expand.parse_string s = Expand.POk p -> typecheck p = Accept p' -> ProgOK teq_bisim p.
+Proof. exact sound_bisim_parsed. Qed.
+
+Theorem C07_complete_bisim_parsed : forall s p, Expand.parse_string s = Expand.POk p -> ProgOK teq_bisim p -> exists p', typecheck p = Accept p'.
+Proof. exact complete_bisim_parsed. Qed.
+
+Theorem C07_well_typed_not_rejected_bisim_parsed : forall s p, Expand.parse_string s = Expand.POk p -> ProgOK teq_bisim p ->
+  typecheck p <> Reject /\ (forall w, typecheck p <> RejectInternal w) /\ (forall w, typecheck p <> Diverge w).
+Proof. exact well_typed_not_rejected_bisim_parsed. Qed.
+
 (* the acyclicity condition of ProgOKe (stated with the marking iteration) means: the "uses" relation
    among the process declarations is well founded *)
 Theorem C07_acyclic_spec : forall ps, NoDup (all_providers ps) -> (deps_acyclic ps = true <-> ProcsGrounded ps).
 Proof. exact procs_grounded_iff. Qed.
 
+Print Assumptions C07_parse_syn_ok.
+Print Assumptions C07_verdict_bisim_parsed.
+Print Assumptions C07_sound_bisim_parsed.
+Print Assumptions C07_complete_bisim_parsed.
+Print Assumptions C07_well_typed_not_rejected_bisim_parsed.
 Print Assumptions C07_acyclic_spec.
 Print Assumptions C07_verdict_bisim.
 Print Assumptions C07_sound_bisim.
